@@ -182,7 +182,13 @@ class FaultLog:  # 0418  # TODO: use a NamedTuple
             if (k >= idx or v < dtm) and k + diff <= self._MAX_LOG_IDX
         }
 
-        return new_map
+        # the entry just seen is at idx: drop any belief that contradicts it (the same
+        # entry at another position, newer entries below it, older entries above it)
+        return OrderedDict(
+            (k, v)
+            for k, v in new_map.items()
+            if k == idx or (k < idx and v > dtm) or (k > idx and v < dtm)
+        )
 
     def handle_msg(self, msg: Message) -> None:
         """Handle a fault log message (some valid payloads should be ignored)."""
